@@ -69,6 +69,56 @@ to the logout handler's own events, whatever is loaded. -/
 theorem C10_no_logout_hooks (u : Unit) : u.before .logout = [] ∧ u.after .logout = [] := by
   cases u <;> exact ⟨rfl, rfl⟩
 
+/-! ### The handler queues exactly these events -/
+
+theorem no_logout_handlers (us : List Unit) :
+    us.flatMap (·.before .logout) = [] ∧ us.flatMap (·.after .logout) = [] := by
+  induction us with
+  | nil => exact ⟨rfl, rfl⟩
+  | cons u us ih =>
+    simp only [List.flatMap_cons, ih.1, ih.2, List.append_nil]
+    exact C10_no_logout_hooks u
+
+/-- What the logout handler answers with. -/
+def logoutAnswer (c : Ctx) : List Act :=
+  if c.cfg.json then [.respond (.redirect root (some .loggedOut) none)]
+  else [.sess (.put .flashOk (lit Txt.loggedOut.name)), .respond (.redirect root (some .loggedOut) none)]
+
+/-- **C10_handler_events.** With no backend failure, whatever modules are loaded and whoever
+(if anybody) is logged in: the logout handler queues exactly the four session deletions of
+`logoutEvents`, the deletion of the remember cookie, then its answer — in that order, nothing
+before them and nothing in between. -/
+theorem C10_handler_events (c : Ctx) (hf : c.fault = none) :
+    (logoutHandler c).1 = .ok ⟨⟩ ∧
+    (logoutHandler c).2.acts =
+      c.acts ++ (logoutEvents c.cfg.whitelist).map Act.sess ++ [.cook .delRm] ++ logoutAnswer c := by
+  have hb := (no_logout_handlers c.cfg.units).1
+  have ha := (no_logout_handlers c.cfg.units).2
+  unfold logoutHandler M.currentUser M.currentUserID M.load
+  cases hcu : c.ctxUser with
+  | some u =>
+    by_cases hj : c.cfg.json = true <;>
+    simp [bind_apply, M.get, hcu, pure_apply, M.logf, M.modify, fireBefore, fireAfter, hb, ha, callHandlers,
+      M.delAllS, M.delS, M.delRm, M.act, M.redirect, redirTarget, M.render, backend, hf, M.putS, logoutAnswer, logoutEvents, hj]
+  | none =>
+    cases hp : c.ctxPid with
+    | some p =>
+      by_cases hpe : p = [] <;> cases hfind : c.store.find p <;>
+      by_cases hj : c.cfg.json = true <;>
+      simp [bind_apply, M.get, hcu, hp, hpe, hfind, pure_apply, M.logf, M.modify, fireBefore, fireAfter, hb, ha, callHandlers,
+        M.delAllS, M.delS, M.delRm, M.act, M.redirect, redirTarget, M.render, backend, hf, M.putS, logoutAnswer, logoutEvents, hj]
+    | none =>
+      cases hs : c.sess.get .uid with
+      | none =>
+        by_cases hj : c.cfg.json = true <;>
+        simp [bind_apply, M.get, hcu, hp, hs, pure_apply, M.logf, M.modify, fireBefore, fireAfter, hb, ha, callHandlers,
+          M.delAllS, M.delS, M.delRm, M.act, M.redirect, redirTarget, M.render, backend, hf, M.putS, logoutAnswer, logoutEvents, hj]
+      | some p =>
+        by_cases hpe : p = [] <;> cases hfind : c.store.find p <;>
+        by_cases hj : c.cfg.json = true <;>
+        simp [bind_apply, M.get, hcu, hp, hs, hpe, hfind, pure_apply, M.logf, M.modify, fireBefore, fireAfter, hb, ha, callHandlers,
+          M.delAllS, M.delS, M.delRm, M.act, M.redirect, redirTarget, M.render, backend, hf, M.putS, logoutAnswer, logoutEvents, hj]
+
 /-! ### Non-vacuity: a session in the middle of everything, whitelist keeping one app key -/
 example :
     applyAll [(.uid, lit "a"), (.halfauth, lit "true"), (.totpPending, lit "v"), (.smsSecret, lit "123456"),
